@@ -109,6 +109,18 @@ def check(ctx):
     s0 = all_shapes[len(all_shapes) // 2]
     ctx.sample({"shape": list(s0), "queries": by_shape[s0][:5]})
     greenback_part(ctx, d)
+    # import order: first extraction before greenlet is imported
+    from ..common import VENV_PY
+    lp = d / "lazygreenlet_out.json"
+    p, _ = run([VENV_PY, str(VERIF / "harness/drivers/slice_lazygreenlet.py"), str(lp)], timeout=300, env=child_env("3.12"))
+    if p.returncode != 0:
+        raise MachineryError(f"lazy-greenlet scenario failed: {p.stderr[-1500:]}")
+    lo = json.loads(lp.read_text())
+    if not lo["ran"]:
+        raise MachineryError("lazy-greenlet scenario did not run (no greenlet?)")
+    ctx.replays += 1
+    for b in lo["bad"]:
+        ctx.violation("[3.12] " + b, None)
 
 
 def greenback_part(ctx, d):
